@@ -127,3 +127,29 @@ MUTANTS4 += [
     M("c17-compact-form-with-invalid", "C17",
       [(GEN, "                and not self.invalidvisitor.visit(node.rhs)\n", "")], mention="compact-form-without-invalid"),
 ]
+
+TKZE = "peg_parser/tokenize.py"
+MUTANTS4 += [
+    # the three parts of the D44 repair taken back one by one
+    M("c08-join-after-match", "C08",
+      [(TKZE, "        if (yield from handle_fstring_progs(state, state.end_progs[-1])):\n"
+              "            # what follows the delimiter is scanned by the next call: the rest of the line is not\n"
+              "            # to be joined onto the text part that starts there\n"
+              "            return\n",
+        "        yield from handle_fstring_progs(state, state.end_progs[-1])\n")], mention="no-join-after-match"),
+    M("c01-join-after-match", "C01",
+      [(TKZE, "        if (yield from handle_fstring_progs(state, state.end_progs[-1])):\n"
+              "            # what follows the delimiter is scanned by the next call: the rest of the line is not\n"
+              "            # to be joined onto the text part that starts there\n"
+              "            return\n",
+        "        yield from handle_fstring_progs(state, state.end_progs[-1])\n")], mention="no-join-after-match"),
+    M("c02-join-at-line-start", "C02",
+      [(TKZE, "(state.pos == 0 and state.in_colon())  # a format spec that goes on at the start of a line", "(state.pos == 0)")],
+      mention="join-only-when-continued"),
+    M("c08-open-fstring-not-refused", "C08",
+      [(TKZE, "    elif state.end_progs[-1].mode is None or state.in_fstring():\n", "    elif state.end_progs[-1].mode is None:\n")],
+      mention="unterminated-string"),
+    M("c08-benign-match-flag-local", "C08",
+      [(TKZE, "        if (yield from handle_fstring_progs(state, state.end_progs[-1])):\n",
+        "        found = yield from handle_fstring_progs(state, state.end_progs[-1])\n        if found:\n")], expect="silent"),
+]
